@@ -25,7 +25,7 @@ def generate(tier, rng):
     wins = [(a, b) for a in range(-1, 10) for b in range(-1, 10)]
     combos = list(itertools.product(range(len(small)), wins, MODES, (True, False)))
     if tier == "quick":
-        combos = rng.sample(combos, 4000)
+        combos = rng.sample(combos, min(len(combos), 4000))
     for ti, (a, b), m, rb in combos:
         cases.append({"op": "icrop", "tier": small[ti], "a": a, "b": b, "mode": m, "rebase": rb,
                       "scale": ["dyadic", rng.choice([0, 2, 7])]})
@@ -55,8 +55,8 @@ def generate(tier, rng):
             cases.append({"op": "pcrop", "tier": t, "a": a, "b": b, "mode": rng.choice(list(MODES)),
                           "rebase": rng.random() < 0.5, "scale": sc})
     sp = gen.small_ptiers(8, 3)
-    for t in (sp if tier != "quick" else rng.sample(sp, 12)):
-        for a, b in (wins if tier != "quick" else rng.sample(wins, 25)):
+    for t in (sp if tier != "quick" else rng.sample(sp, min(len(sp), 12))):
+        for a, b in (wins if tier != "quick" else rng.sample(wins, min(len(wins), 25))):
             cases.append({"op": "pcrop", "tier": t, "a": a, "b": b, "mode": "lax", "rebase": (a + b) % 2 == 0,
                           "scale": ["dyadic", 1]})
     ntg = 150 if tier == "quick" else 3000
